@@ -386,7 +386,8 @@ prop(
     assumptions=["on a stream socket the descriptors of a sendmsg arrive with the read that consumes its first byte (kernel SCM_RIGHTS semantics)",
                  "input that does not parse without error is out of scope here (C11 judges it)"],
     floors={"any": {"descriptors_passed": 20000, "reads_completing_several_requests": 1000, "reads_completing_no_request": 1000,
-                    "eof_reads_carrying_descriptors": 200, "sendmsg_with_descriptors": 1000, "descriptors_left_with_the_connection": 200}},
+                    "eof_reads_carrying_descriptors": 200, "sendmsg_with_descriptors": 1000, "descriptors_left_with_the_connection": 200,
+                    "cases_with_late_collection": 1000}},
 )
 
 
